@@ -483,7 +483,7 @@ func main() {
 			}
 			maxDur := 40
 			if run.Thorough() {
-				maxDur = 600
+				maxDur = 50
 			}
 			rep.VRT(run, h, bound, evid.Workers(), maxDur, func(v vrt.Violation) string {
 				m := strings.SplitN(v.Msg, "\n", 2)[0]
